@@ -48,6 +48,9 @@ class Sim:
             return self._link_value(v)
         if v[0] == "raw":
             return copy.deepcopy(v[1])
+        if v[0] == "owned":
+            # the very value object currently held by another attribute (of this or of another object)
+            return getattr(self.obj(v[1]), v[2])
         if v[0] == "rawrefs":
             return [self.obj(n) for n in v[1]] + [v[2]]
         return self._value(v, change.get("src"), change.get("label"))
@@ -152,6 +155,14 @@ class Sim:
             names[args[0]] = args[1]
         elif m == "clear":
             names.clear()
+        elif m in ("extend_self", "iadd_self"):
+            names.extend(names)
+        elif m == "extend_from":
+            names.extend(args[2])
+        elif m == "delslice":
+            del names[args[0]:args[1]]
+        elif m == "setslice":
+            names[args[0]:args[1]] = args[2]
         else:
             raise AssertionError(m)
         return names, ret
@@ -162,9 +173,12 @@ class Sim:
         attr, m = op["attr"], op["method"]
         args = op.get("args", [])
         for a in ([args[0]] if m in ("append", "remove") else [args[1]] if m in ("insert", "setitem")
-                  else args[0] if m in ("extend", "iadd") else []):
+                  else args[0] if m in ("extend", "iadd") else args[2] if m == "setslice" else []):
             self.obj(a)
         cur = list(self.sattrs(op["obj"])[attr][1])
+        if m == "extend_from":
+            # the argument is the live list of another object (its wrappers), as in `uj.uj_steps += other.uj_steps`
+            args = [args[0], args[1], list(self.sattrs(args[0])[args[1]][1])]
         try:
             new_names, exp_ret = self.builtin_list_effect(cur, m, args)
             self.expect = {"exc": None, "ret": exp_ret, "names": new_names}
@@ -198,6 +212,17 @@ class Sim:
             lst[args[0]] = self.obj(args[1])
         elif m == "clear":
             lst.clear()
+        elif m == "extend_self":
+            lst.extend(lst)
+        elif m == "iadd_self":
+            lst += lst
+            setattr(o, attr, lst)
+        elif m == "extend_from":
+            lst.extend(getattr(self.obj(args[0]), args[1]))
+        elif m == "delslice":
+            del lst[args[0]:args[1]]
+        elif m == "setslice":
+            lst[args[0]:args[1]] = [self.obj(n) for n in args[2]]
         else:
             raise AssertionError(m)
         if new_names is not None:
@@ -371,7 +396,11 @@ class Sim:
         system = self.world.system
         targets = [self.obj(t) for t in op.get("targets", [])]
         tmp = os.path.join(tempfile.gettempdir(), f"efsim-{os.getpid()}")
-        os.makedirs(tmp, exist_ok=True)
+        if not os.path.isdir(tmp):
+            import atexit
+            import shutil
+            os.makedirs(tmp, exist_ok=True)
+            atexit.register(shutil.rmtree, tmp, True)
         if kind == "explain":
             for o in targets:
                 for attr in o.calculated_attributes:
@@ -475,3 +504,8 @@ class Sim:
             setattr(target, op["attr"], list(getattr(target, op["attr"])) + [arg])
         else:
             setattr(target, op["attr"], arg)
+
+    def op_copy_object(self, op):
+        """A new object (in no system yet) with the same inputs and links as an existing one."""
+        o = self.spec["objs"][op["of"]]
+        self.create(op["name"], o["cls"], copy.deepcopy(o["attrs"]), copy.deepcopy(o.get("src")))
